@@ -316,6 +316,9 @@ pub enum CombCase {
     Conv { src_len: u64, ratio_q: u32, linear: bool },
     /// `rate.hz(frequency signal of len frames)` used as a signal in its own right (and under a pointwise adaptor)
     HzSignal { len: u64, scaled: bool },
+    /// `until_exhausted()` over a signal whose exhaustion flag would flip back if it were pulled once more: a buffered
+    /// signal (capacity >= 2) or an upsampling converter; after the first None the iterator must stay finished
+    StaysFinished { src_len: u64, cap: usize, upsample: bool },
 }
 
 fn comb_src(len: u64) -> signal::FromIterator<std::vec::IntoIter<f64>> {
@@ -412,6 +415,30 @@ pub fn check_comb(c: &CombCase, st: &mut Stats) -> CheckResult {
             ensure!(steps == n, "stepping the same converter until is_exhausted() takes {} frames, until_exhausted() yields {}", steps, n);
             st.nt(true);
             st.class_if(*ratio_q == 4, "converter at ratio exactly 1 over a finite source");
+            Ok(())
+        }
+        CombCase::StaysFinished { src_len, cap, upsample } => {
+            ensure!(*cap >= 1, "bad case: capacity 0");
+            let limit = (*src_len as usize + *cap + 4) * 8;
+            macro_rules! go {
+                ($sig:expr, $what:expr) => {{
+                    let mut it = $sig.until_exhausted();
+                    let n = it.by_ref().take(limit).count();
+                    ensure!(n < limit, "{}: until_exhausted() does not end", $what);
+                    for j in 0..5 {
+                        ensure!(it.next().is_none(), "{} over a source of {} frames: until_exhausted() yielded another frame on call {} after it had returned None ({} frames before that)", $what, src_len, j + 1, n);
+                    }
+                }};
+            }
+            if *upsample {
+                let mut s = comb_src(*src_len);
+                let i = Floor::new(s.next());
+                go!(s.scale_hz(i, 1.0 / *cap as f64), format!("a floor converter at ratio 1/{}", cap));
+            } else {
+                go!(comb_src(*src_len).buffered(dasp_ring_buffer::Bounded::from(vec![0.0f64; *cap])), format!("a buffered signal of capacity {}", cap));
+            }
+            st.nt(*cap >= 2);
+            st.class("until_exhausted polled again after None");
             Ok(())
         }
         CombCase::HzSignal { len, scaled } => {
@@ -663,9 +690,15 @@ pub fn run(ctx: &mut Ctx) {
         for scaled in [false, true] {
             cases.push(CombCase::HzSignal { len: src_len, scaled });
         }
+        for cap in 1..=5usize {
+            for upsample in [false, true] {
+                cases.push(CombCase::StaysFinished { src_len, cap, upsample });
+            }
+        }
     }
     ctx.require_class("converter at ratio exactly 1 over a finite source");
     ctx.require_class("frequency signal (rate.hz) used as a signal");
+    ctx.require_class("until_exhausted polled again after None");
     ctx.enumerate("converter-and-hz-exhaustion", true, cases.into_iter(), check_comb);
     let bus = (0u64..10, 1usize..=4, proptest::collection::vec(0usize..6, 0..40), proptest::collection::vec(0usize..30, 0..3)).prop_map(|(src_len, outputs, schedule, late)| CombCase::Bus { src_len, outputs, schedule, late });
     ctx.prop("bus-output-exhaustion", ctx.pick(5_000, 50_000), bus, check_comb);
